@@ -355,6 +355,17 @@ class EvalMixin(CallMixin):
             r = Attr(bref if bref is not None else Sym(base.name), attr)
             if r.key() in self.heap:
                 return self.heap[r.key()], r
+            if attr == "__class__":
+                return ClassRef(base.cls), None
+            if base.cls in repo.classes and base.fields and not getattr(self, "_in_getattr_hook", False) and not (attr.startswith("__") and attr.endswith("__")):
+                # the class's own fallback for attributes that are neither fields nor methods (objects whose fields the model spelled out)
+                hook = repo.find_method(base.cls, "__getattr__")
+                if hook is not None:
+                    self._in_getattr_hook = True
+                    try:
+                        return self.call_function(hook, [base, attr], {}, node, fr), None
+                    finally:
+                        self._in_getattr_hook = False
             return BoundMethod(base, attr, None, bref) if base.cls.startswith("builtins.") and False else r, r
         if isinstance(base, Atom):
             if attr in base.fields:
